@@ -216,6 +216,10 @@ def gtf_annotation(rng, cfg=None):
                     s, e = rand_span(rng, pool)
                 glines.append(mf([seqid, cfg.get("explicit_source", "src"), "transcript", s, e, ".", strand, "."],
                                  [[gk, [g]], [tk, [t]]]))
+        if cfg.get("gene_level") and rng.random() < 0.6:
+            # a line that belongs to the gene as a whole (no transcript id): a level-2 child of its gene only
+            s, e = rand_span(rng, pool)
+            glines.append(mf([seqid, "src", rng.choice(["promoter", "enhancer"]), s, e, ".", strand, "."], [[gk, [g]]]))
         if cfg.get("explicit_gene") and rng.random() < 0.6:
             s, e = rand_span(rng, pool)
             glines.append(mf([seqid, cfg.get("explicit_source", "src"), "gene", s, e, ".", strand, "."], [[gk, [g]]]))
